@@ -69,6 +69,8 @@ func ValidateServices(i Input) error {
 
 	var errs []error
 
+	getters := make(map[string]string) // getter => name of the first service that uses it
+
 	for _, n := range maps.Keys(i.Services) {
 		var sErrs []error
 		s := i.Services[n]
@@ -77,6 +79,13 @@ func ValidateServices(i Input) error {
 		if !ptr.Dereference(s.Todo, DefaultServiceTodo) {
 			for _, v := range validators {
 				sErrs = append(sErrs, v(s))
+			}
+			if s.Getter != nil {
+				if prev, ok := getters[*s.Getter]; ok {
+					sErrs = append(sErrs, fmt.Errorf("getter: %+q is already used by %+q", *s.Getter, prev))
+				} else {
+					getters[*s.Getter] = n
+				}
 			}
 		}
 		errs = append(errs, grouperror.Prefix(fmt.Sprintf("%+q: ", n), sErrs...))
@@ -119,6 +128,8 @@ func init() {
 	for i := 0; i < r.NumMethod(); i++ {
 		reservedGetters[r.Method(i).Name] = true
 	}
+	// the generated container embeds the runtime container, a getter must not collide with that field
+	reservedGetters[r.Elem().Name()] = true
 }
 
 func ValidateServiceGetter(s Service) error {
